@@ -96,6 +96,37 @@ def check_load(rep, repo):
             rep.ev("LOAD-untouched", e, False, f"the loaded object is modified by {e.target[2]}() before installation")
 
 
+def _shadowed_default(repo, ci, node, name) -> bool:
+    """`_flag: bool = False` in the class body is harmless when the value is immutable and __init__ assigns the instance
+    attribute of that name on every path (directly or through the property setter that stores it): the instance
+    __dict__, which is what pickle saves, always holds it."""
+    val = node.value if isinstance(node, (ast.Assign, ast.AnnAssign)) else None
+    if val is None or not isinstance(val, ast.Constant):
+        return False
+    init = ci.methods.get("__init__")
+    if init is None:
+        return False
+    w = Walker(repo, init, self_class=ci.name, inline=lambda f: f.cls == ci.name and f.name.startswith("_")
+               and not f.name.startswith("__"))
+    names = {name, name.lstrip("_")}
+    setter = ci.setters.get(name.lstrip("_"))
+    if name.startswith("_") and setter is not None:
+        # the public property's setter must store the private attribute unconditionally (or raise)
+        ws = Walker(repo, setter, self_class=ci.name, inline=lambda f: False)
+        raises = [e for e in ws.events if e.kind == "raise"]
+        st = [e for e in ws.events if e.kind == "store" and e.target == ("attr", ("self",), name)]
+        if not st or not all(all(any((g, not pol) in r.guards for r in raises) for g, pol in e.guards) for e in st[-1:]):
+            names.discard(name.lstrip("_"))
+    else:
+        names.discard(name.lstrip("_")) if name.startswith("_") else None
+    raises = [e for e in w.events if e.kind == "raise"]
+    for e in w.events:
+        if e.kind == "store" and e.target[0] == "attr" and e.target[1] == ("self",) and e.target[2] in names and not e.loops \
+                and all(any((g, not pol) in r.guards for r in raises) for g, pol in e.guards):
+            return True
+    return False
+
+
 def check_state(rep, repo):
     n = 0
     for cname in CLASSES:
@@ -109,6 +140,9 @@ def check_state(rep, repo):
                         rep.chk.ob("STATE-filter", cname, unparse(node)[:80], False,
                                    f"{name} changes what pickle stores / restores", file=repo.modules[ci.module].relpath,
                                    line=node.lineno)
+                    elif _shadowed_default(repo, ci, node, name):
+                        rep.chk.ob("STATE-class-attr", cname, unparse(node)[:80], True,
+                                   "an immutable class-level default that every constructed instance overrides with its own attribute")
                     else:
                         rep.chk.ob("STATE-class-attr", cname, unparse(node)[:80], False,
                                    "class-level attribute: state shared by all instances is not saved with the model",
